@@ -90,6 +90,7 @@ class Result:
         self.distribution = {}
         self.sigs = set()
         self.search_summary = None
+        self.leads = []
 
     @property
     def distinct_nontrivial(self):
@@ -202,6 +203,12 @@ class Prop:
     def execute(self, case, ctx, res):
         raise NotImplementedError
 
+    def lead(self, case, ctx, res):
+        """A session ({'steps': [...]}) on which implementation and model differ (small-scope enumeration): decide with the
+        property's oracle whether the implementation violates the property on it.  Default: the generic part - a render call
+        that raises is a violation of every property that presupposes an answer only for C01, so nothing here."""
+        return None
+
     # the search used when a proof obligation or the correspondence is broken: more of the same
     # generator with the oracle on the implementation only
     def search_cases(self, ctx):
@@ -256,6 +263,23 @@ def run_property(prop, ctx, broken=False):
         run_case(case)
         if len(fresh_violations()) >= 3 or len(res.disagreements) >= 5:
             break
+    # small-scope correspondence (harness/smallscope.py): every document of up to k lines over a systematic alphabet of the
+    # property's syntax, implementation against model, on all cores.  Always in the thorough tier; in the quick tier when the
+    # source is not the one the model was last validated against.  A document on which the two differ is a disagreement like
+    # any other - and a concrete lead for the failing-input search, which hands it to the property's oracle (`Prop.lead`).
+    if ctx.model is not None and os.environ.get('VERIF_NO_SMALLSCOPE') != '1' and not fresh_violations() and \
+            (ctx.tier == 'thorough' or (ctx.source_changed and not broken)):
+        from . import smallscope
+        limit = int(os.environ.get('VERIF_SMALLSCOPE_DOCS', '120000' if ctx.tier == 'quick' else '1500000'))
+        try:
+            leads, stats = smallscope.run(prop.id, ctx.seed, limit, budget_s=60.0 if ctx.tier == 'quick' else 900.0)
+        except Exception as e:    # noqa  (machinery, never a verdict)
+            leads, stats = [], {'error': '%s: %s' % (type(e).__name__, str(e)[:200])}
+        res.distribution['small_scope'] = stats
+        res.compared += stats.get('renders_compared', 0)
+        for l in leads[:5]:
+            res.disagreement(l['case'], l['impl'], l['model'], 'small-scope enumeration, step %d' % l['step'])
+        res.leads = [l['case'] for l in leads[:20]]
     if ctx.source_changed and not broken and not fresh_violations() and not res.disagreements and ctx.tier == 'quick':
         # the source is not the one the model was last validated against: the quick sample says less than it does on the
         # unchanged tree, so more of the same (implementation against model and oracle) within the same time budget again
@@ -281,7 +305,19 @@ def run_property(prop, ctx, broken=False):
         m = prop.search_cases(ctx)
         t1 = time.time()
         tried = 0
+        # the documents on which implementation and model were seen to differ, first: what does the property's oracle say?
+        for case in getattr(res, 'leads', []):
+            tried += 1
+            res.evaluations += 1
+            try:
+                prop.lead(case, ctx, res)
+            except Exception:   # noqa
+                pass
+            if fresh_violations():
+                break
         for case in prop.corpus(ctx):
+            if fresh_violations():
+                break
             tried += 1
             res.evaluations += 1
             prop.execute(case, ctx, res)
